@@ -6,6 +6,7 @@ Atoms are inputs (base) or opaque gate outputs (defined, with a structural defin
 is only opened by the SMT back end and by counterexample evaluation).
 """
 import itertools
+import traceback
 import time
 
 import z3
@@ -50,6 +51,26 @@ def unpoison(e):
     """an engine signal that engine code itself caught and handled"""
     if C.poison is e:
         C.poison = None
+
+
+class ModelGap(AttributeError):
+    """an attribute of a proxy value that the engine does not model was asked for.  An AttributeError so that hasattr()
+    probes keep working; when it ESCAPES from the code under verification the path is undecided, not an exception of the
+    real code (the real object has the attribute)"""
+
+
+PROXY_NAMES = ("SBit", "SInt", "SLin", "SNeg", "SDiff", "SBits", "SBytes", "SByteArray", "SArray", "SymMember", "SymList", "SymSeq", "SymDict", "SFun", "SZInt", "SZInv",
+               "SArith", "SBinStr", "LazyBin", "SNd", "NumpyFacade", "s_int", "s_bytes")
+
+
+def is_model_gap(e):
+    """an exception that exists only because a value is a proxy: the real library object would not have raised it"""
+    if isinstance(e, ModelGap):
+        return True
+    if isinstance(e, (TypeError, AttributeError, NotImplementedError)):
+        msg = str(e)
+        return any(("'%s'" % n) in msg or (" %s " % n) in (" " + msg + " ") for n in PROXY_NAMES)
+    return False
 
 
 class JobTimeout(BaseException):
@@ -956,6 +977,10 @@ def explore(fn, max_paths=20000, on_exception=None):
         except Exception as e:  # path ends in a python exception
             if C.poison is not None:
                 out = ("undecided", C.poison)
+            elif is_model_gap(e):
+                tb = traceback.extract_tb(e.__traceback__)
+                where = next(("%s:%d" % (f.filename.split("/")[-1], f.lineno) for f in reversed(tb) if "/pyvc/" not in f.filename), "?")
+                out = ("undecided", OutOfReach("operation on a proxy value the engine does not model (%s: %s) @%s" % (type(e).__name__, str(e)[:120], where)))
             else:
                 out = ("exc", e, on_exception() if on_exception else None)
         if out[0] != "undecided" and C.pos != len(C.decisions):
